@@ -210,7 +210,10 @@ impl<'a> Gen<'a> {
         let d = self.p.len();
         match t {
             1 => { let b = self.r.bytes(4); self.p.extend(b); }
-            28 => { let b = self.r.bytes(16); self.p.extend(b); }
+            28 => { let mut b = self.r.bytes(16);
+                    // special address forms: IPv4-mapped (::ffff:a.b.c.d), IPv4-compatible, unspecified, loopback
+                    match self.r.below(8) { 0 => { for i in 0..10 { b[i] = 0; } b[10] = 0xff; b[11] = 0xff; } 1 => { for i in 0..12 { b[i] = 0; } } 2 => { for i in 0..16 { b[i] = 0; } } 3 => { for i in 0..15 { b[i] = 0; } b[15] = 1; } _ => {} }
+                    self.p.extend(b); }
             2 | 5 | 12 => self.name(true),
             15 => { put16(&mut self.p, self.r.next() as u16); self.name(true); }
             6 => { self.name(true); self.name(true); let b = self.r.bytes(20); self.p.extend(b); }
